@@ -108,6 +108,21 @@ def run(chk: Check, tier: str, seed: int) -> None:
             chk.violation(sig, case, what)
     for rec in recs[:2] + recs[len(recs) // 2: len(recs) // 2 + 3]:
         chk.sample({"base": untext(rec["base"]), "rel": untext(rec["rel"]), "spec": untext(rec["text"]) if rec["ok"] else "refused"})
+    # texts no specification string could usefully carry: step counts and offsets of more digits than the host converts
+    from jsonpath import JSONPointer, RelativeJSONPointer
+    from jsonpath.exceptions import RelativeJSONPointerError
+
+    for rel_text in ("9" * 5000, "0+" + "9" * 5000, "0-" + "9" * 5000, "9" * 5000 + "#", "1/" + "9" * 5000):
+        try:
+            r = RelativeJSONPointer(rel_text)
+            r.to(JSONPointer("/a/1"))
+            if not rel_text.startswith("1/"):
+                chk.violation("huge-number:accepted", {"rel": rel_text[:12] + "..."}, "a 5000-digit step count or offset accepted")
+        except RelativeJSONPointerError:
+            pass
+        except BaseException as e:  # noqa: BLE001
+            chk.violation(f"huge-number:raised-{exc_family(e)}", {"rel": rel_text[:12] + "..."}, type(e).__name__)
+        chk.traces += 1
     chk.exhaustive = True
     chk.rule = ("terminal states of MC_RelPointer.tla: bases up to depth 3 (thorough 4) over tokens {a,0,2,10,e-acute,~} x steps 0..depth+1 x "
                 "offsets {none,+-1,+-2,+-10,+-12} (only on a final canonical index) x suffix {empty,'#',/a,/~0,/e-acute/0,/a~1b/,/emoji}; "
